@@ -1,11 +1,12 @@
 """C13 — tagged unions dispatch on the tag alone (default engine part)."""
 from __future__ import annotations
 
+import collections
 import copy
 import json
 
 from harness import common as C
-from harness import gen, model, ref
+from harness import gen, metasteps, model, ref
 from harness.model import T
 from harness.props.c01 import compare_load, load_outcome
 from harness.props import v1streams
@@ -137,6 +138,27 @@ def root_with_siblings(name, ft, meta, sibs):
             'ftys': [[n, t] for n, t in order]}
 
 
+def spread_bindings(rng, members, root, engine):
+    """DIMENSION the Meta of a member class / of the container arrives in two or more bindings, in any order (harness/metasteps.py):
+    LoadMeta / DumpMeta / hand-made Metas bound after the class statement, an inner Meta followed by such bindings, JSONPyWizard members
+    (implicit DumpMeta, then the inner Meta); the explicit `tag` mostly in a LATER binding, sometimes with a stale tag in an earlier one that
+    the later one overrides; auto-tagged members that already have a Meta of default-spelling settings; the container's tag_key /
+    auto_assign_tags / unknown-key policy likewise split and overridden.  -> {class name: label of its binding history}"""
+    neutral = metasteps.NEUTRAL_V0 if engine == 'v0' else metasteps.NEUTRAL_V1
+    rmeta = root['info'].get('meta') or {}
+    out = {}
+    for m in members:
+        if rng.random() < 0.75:
+            tag = (m['info'].get('meta') or {}).get('tag')
+            out[m['info']['name']] = metasteps.distribute(rng, m['info'], neutral, stale={'tag': tag + '~old'} if tag else None,
+                                                          avoid=set(rmeta) - {'v1', 'key_transform_with_dump'})
+    if rng.random() < 0.5 and rmeta:
+        stale = {'tag_key': 'stale key', 'auto_assign_tags': False}
+        out[root['info']['name']] = metasteps.distribute(rng, root['info'], neutral, stale=stale, py_ok=engine == 'v1',
+                                                         late=('tag_key', 'auto_assign_tags', 'raise_on_unknown_json_key', 'v1_on_unknown_key'), p_late=0.6)
+    return out
+
+
 def _view(root_obj, skip=()):
     """what the load-first comparison looks at: every field of the container except the named sibling fields"""
     import dataclasses
@@ -197,6 +219,80 @@ def with_auto_tags(ty, auto_root):
     return t
 
 
+# --------------------------------------------------------------------------- DIMENSION the document is an instance of a dict SUBCLASS
+
+class UserMap(dict):
+    """a user-defined mapping type (e.g. an attribute-access dict of a web framework)"""
+
+
+class UserOrdered(collections.OrderedDict):
+    __slots__ = ()
+
+
+MAP_KINDS = ['ordered', 'default', 'user', 'user-ordered', 'hook']
+_MK = {'ordered': lambda d, f: collections.OrderedDict(d), 'default': lambda d, f: collections.defaultdict(f, d),
+       'user': lambda d, f: UserMap(d), 'user-ordered': lambda d, f: UserOrdered(d)}
+
+
+def draw_mapping(rng):
+    """(kind, scope, factory): which dict subclass carries the document — OrderedDict (what `from_json(.., object_pairs_hook=OrderedDict)`
+    produces: kind 'hook' goes through that public path), defaultdict, user subclasses of dict / OrderedDict built by hand — and whether every
+    level is one or every level below the top."""
+    return rng.choice(MAP_KINDS), rng.choice(['all', 'inner']), rng.choice([None, list, str, dict])
+
+
+def as_mapping(doc, kind, scope, factory, top=True):
+    if isinstance(doc, list):
+        return [as_mapping(e, kind, scope, factory, False) for e in doc]
+    if isinstance(doc, dict):
+        items = {k_: as_mapping(v, kind, scope, factory, False) for k_, v in doc.items()}
+        return items if (top and scope == 'inner') else _MK[kind](items, factory)
+    return doc
+
+
+def _err_sig(e):
+    kw = getattr(e, 'kwargs', None) or {}
+    vt = kw.get('valid_tags')
+    return type(e).__name__, (sorted(vt) if vt is not None else None), kw.get('input_tag')
+
+
+def mapping_docs(ctx, prefix, case, built, mapdim, docs, src):
+    """A tagged document is a dict whatever its concrete class: the same document as an instance of a dict subclass at the Union position
+    is dispatched exactly like the plain dict — same member class and value for an assigned tag, the same ParseError (valid_tags, input_tag) for
+    an unassigned / missing one.  `docs`: [(label, plain document, outcome of the plain load)].
+    Kept out (genuine defect of the unchanged library, /tmp/ag/Q/findings/defaultdict-missing-tag-typeerror.py): a defaultdict WITH a factory
+    that lacks the tag key — the default engine's `o[tag_key]` asks the factory (TypeError for list, and the key is written into the input);
+    tag-less documents use defaultdict(None)."""
+    from dataclass_wizard import fromdict
+    kind, scope, factory = mapdim
+    for label, doc, plain in docs:
+        if kind == 'hook':
+            text = json.dumps(doc)
+            got = load_outcome(lambda: built.root.from_json(text, object_pairs_hook=collections.OrderedDict))
+            how = 'from_json(text, object_pairs_hook=OrderedDict)'
+        else:
+            fac = None if label == 'bad-missing' else factory
+            md = as_mapping(copy.deepcopy(doc), kind, scope, fac)
+            got = load_outcome(lambda: fromdict(built.root, md))
+            how = f'fromdict of {kind} mappings ({scope} levels' + (f', factory {getattr(fac, "__name__", fac)}' if kind == 'default' else '') + ')'
+        c = dict(case, mapping=[kind, scope, getattr(factory, '__name__', None)], which=label, doc=repr(doc)[:400])
+        ctx.seen(f'{prefix}:mapping:{kind}', c)
+        kindf = f'{prefix}:mapping'
+        if plain[0] == 'ok':
+            if got[0] == 'err':
+                ctx.fail(kindf, c, f'{how}: {type(got[1]).__name__} {_err_sig(got[1])[1:]!r}: {str(got[1])[:200]!r}, while the same document as plain '
+                         f'dicts loads as {plain[1]!r}'[:900], detail=src)
+            elif label == 'bad-missing':
+                pass        # no tag, taken by a scalar member: str() of a mapping shows its class, the values legitimately differ
+            elif repr(got[1]) != repr(plain[1]):
+                ctx.fail(kindf, c, f'{how} gave {got[1]!r}, the same document as plain dicts {plain[1]!r}'[:900], detail=src)
+        elif got[0] == 'ok':
+            ctx.fail(kindf, c, f'{how} accepted a document that is rejected as plain dicts ({type(plain[1]).__name__}): {got[1]!r}'[:900], detail=src)
+        elif _err_sig(got[1]) != _err_sig(plain[1]):
+            ctx.fail(kindf, c, f'{how} raised {_err_sig(got[1])!r}, the same document as plain dicts {_err_sig(plain[1])!r} '
+                     f'(error type, valid_tags, input_tag)'[:900], detail=src)
+
+
 def run(ctx: C.Ctx):
     v1streams.run_streams(ctx, run_default, run_v1)
 
@@ -252,6 +348,7 @@ def run_default(ctx: C.Ctx):
         pathed = add_path_fields(rng, members, 'v0') if 'paths' in dims else []
         sibs = sibling_fields(rng, members, K) if 'sibs' in dims else []
         root = root_with_siblings(model.fresh('R'), ft, meta, sibs)
+        stepped = spread_bindings(rng, members, root, 'v0') if rng.random() < 0.3 else {}
         try:
             built = model.Built(root)
         except Exception as e:
@@ -265,6 +362,7 @@ def run_default(ctx: C.Ctx):
                        'dictval': {'a': k}, 'tuple': ('s', k)}[pos]
             sib_vals = {n: gen.gen_value(rng, t, built) for n, t, _m, _b in sibs}
             x = built.root(member_fld=wrapped, **sib_vals)
+            mapdim = draw_mapping(rng)
             if not ctx.begin_case(i):
                 continue
             case = {'ty': root, 'member': K['info']['name'], 'pos': pos, 'inst': repr(x)[:400]}
@@ -274,8 +372,11 @@ def run_default(ctx: C.Ctx):
                 case['path_members'] = pathed
             if sibs:
                 case['siblings'] = [(n, m['info']['name'], b) for n, _t, m, b in sibs]
+            if stepped:
+                case['meta_bindings'] = stepped
             ctx.seen('tagged:' + pos, case)
-            for dname, on in (('shared-name', shared), ('path-member', K['info']['name'] in pathed), ('sibling-ref', sibs)):
+            for dname, on in (('shared-name', shared), ('path-member', K['info']['name'] in pathed), ('sibling-ref', sibs),
+                              ('meta-in-steps', stepped), ('member-tag-in-later-binding', 'late-tag' in stepped.get(K['info']['name'], ''))):
                 if on:
                     ctx.seen('tagged:dim:' + dname, case)
             src = dict(src=built.source)
@@ -364,12 +465,157 @@ def run_default(ctx: C.Ctx):
                 st2.add_json(bad)
                 reqs.append({'op': 'load', 'ty': model.enc_ty(mty), 'doc': model.enc_j(bad), 'std': st2.build()})
                 pend.append((case2, out2, built))
+            mapping_docs(ctx, 'tagged', case, built, mapdim, [('tagged', jd, out), ('bad-' + variant, bad, out2)], src)
         finally:
             built.close()
+    run_shared_family(ctx, 'v0', n, ctx.quick(60, 600))
+    ctx.rule += (' SHARED FAMILY: one family of tagged members used by two containers with different tag_key / unknown-key policy / Union order / '
+                 'position, histories of dumps, loads and unassigned-tag loads over both containers in every order: every operation follows its own '
+                 'container\'s tag key. MAPPING TYPE: every dumped / bad document again as OrderedDict / defaultdict / user dict subclasses and through '
+                 'from_json(object_pairs_hook=OrderedDict): same dispatch and same ParseError as the plain dict. META IN STEPS: member and container Metas '
+                 'arriving in 2-3 bindings (inner Meta, JSONPyWizard, LoadMeta / DumpMeta / hand-made Meta after the class statement), tag mostly in a later '
+                 'binding, stale values overridden by later bindings.')
     if ctx.model_available:
         outs = ctx.driver.run(reqs)
         for (case, out, built), o_ in zip(pend, outs):
             compare_load(ctx, 'tagged', case, out, o_, built)
+
+
+# --------------------------------------------------------------------------- DIMENSION one family of members, several containers
+
+SHARED_TAG_KEYS = [None, 'type', 'kind', '__tag__', '@class', 'my tag', "it's", 'a"b', '{o}', 'ключ', 'proto']
+
+
+def run_shared_family(ctx: C.Ctx, engine, base, n):
+    """ONE family of tagged member classes used by TWO container classes that configure different tag keys (and different unknown-key
+    policies, Union argument orders and container positions), in one process: a history of dumps, loads of reference documents (dumped by
+    freshly defined twin classes that only ever serve one container) and loads of unassigned tags, over both containers in every order — so
+    that the members have been through the other container's dump / load set-up (an auto-assigning dump runs the load set-up too) before a
+    container uses them.  The tag key is a setting of the container: each operation is judged by its own container's tag key alone."""
+    import dataclasses
+    from dataclass_wizard import fromdict, asdict
+    from dataclass_wizard.errors import ParseError
+    rng = v1streams.sub_rng(ctx, 'shared-family:' + engine)
+    gen.SUBS = False
+    fld = 'memberFld' if engine == 'v0' else 'member_fld'
+    pre = 'tagged:shared' if engine == 'v0' else 'tagged:v1:shared'
+    for j in range(n):
+        i = base + j
+        if ctx.done(i):
+            break
+        nm = v1streams.Namer(('x' if engine == 'v0' else 'y') + str(j))
+        auto = rng.random() < 0.45
+        members = gen_family(rng, auto, rng.randint(2, 4), fresh=nm)
+        keys = rng.sample(SHARED_TAG_KEYS, 2)
+        if {keys[0] or '__tag__'} == {keys[1] or '__tag__'}:
+            keys[1] = 'other'
+        conts = []
+        for c in range(2):
+            args = members + rng.sample([T('int'), T('str'), T('bool'), T('none'), T('float')], rng.randint(0, 1))
+            rng.shuffle(args)
+            pos = rng.choice(['bare', 'optional', 'list', 'dictval', 'tuple'])
+            if pos == 'optional' and not any(a['k'] == 'none' for a in args):
+                args = args + [T('none')]
+            union = T('union', *args)
+            ft = {'bare': union, 'optional': union, 'list': T('list', union), 'dictval': T('dict', T('str'), union),
+                  'tuple': T('tuple', T('str'), union)}[pos]
+            meta = {} if engine == 'v0' else {'v1': True, 'key_transform_with_dump': 'NONE'}
+            if keys[c] is not None:
+                meta['tag_key'] = keys[c]
+            if auto:
+                meta['auto_assign_tags'] = True
+            policy = rng.choice(['none', 'raise'])
+            if policy == 'raise':
+                meta.update({'raise_on_unknown_json_key': True} if engine == 'v0' else {'v1_on_unknown_key': 'RAISE'})
+            root = {'k': 'cls', 'info': {'name': nm('R'), 'fields': [{'name': 'member_fld'}], 'wizard': True, 'meta': meta or None},
+                    'ftys': [['member_fld', ft]]}
+            conts.append({'root': root, 'pos': pos, 'key': keys[c] or '__tag__', 'policy': policy})
+        # history: the first operation sets the members up through one container; every container dumps, loads and rejects at least once
+        ops = [(rng.randrange(2), rng.choice(['load', 'load', 'dump', 'bad']))]
+        rest = [(c, o) for c in range(2) for o in ('dump', 'load', 'bad')] + [(rng.randrange(2), rng.choice(['dump', 'load'])) for _ in range(2)]
+        rng.shuffle(rest)
+        ops += rest
+        both = T('tuple', conts[0]['root'], conts[1]['root'])
+        try:
+            built = model.Built(both)
+            twins = [model.Built(both), model.Built(both)]      # twin c only ever dumps through container c
+        except Exception as e:
+            ctx.count('build_error')
+            ctx.notes.setdefault('build_errors', []).append(repr(e)[:300])
+            continue
+        try:
+            built.bind_of = bind_map(built)
+            plan = []
+            for c, o in ops:
+                K = rng.choice(members)
+                k = gen.gen_instance(rng, K, built, use_defaults_prob=0.3)
+                plan.append((c, o, K, k, rng.randint(0, 4)))
+            if not ctx.begin_case(i):
+                continue
+            assigned = [(m['info'].get('meta') or {}).get('tag') or (cname(m['info']) if auto else None) for m in members]
+            case = {'ty': both, 'engine': engine, 'auto': auto, 'containers': [[ct['root']['info']['name'], ct['key'], ct['pos'], ct['policy']] for ct in conts],
+                    'history': [[conts[c]['root']['info']['name'], o, K['info']['name']] for c, o, K, _k, _b in plan]}
+            ctx.seen(pre, case)
+            src = dict(src=built.source)
+            for step, (c, o, K, k, badpick) in enumerate(plan):
+                ct, other = conts[c], conts[1 - c]
+                pos, eff = ct['pos'], ct['key']
+                rname = ct['root']['info']['name']
+                exp_tag = (K['info'].get('meta') or {}).get('tag') or (cname(K['info']) if auto else None)
+                wrap = lambda z: {'bare': z, 'optional': z, 'list': [z], 'dictval': {'a': z}, 'tuple': ('s', z)}[pos]
+                cs = dict(case, step=step, op=[rname, o, K['info']['name']], inst=repr(k)[:300])
+                ctx.seen(f'{pre}:{o}' + (':first' if step == 0 else ''), cs)
+                if o == 'dump':
+                    try:
+                        d = asdict(built.get(rname)(member_fld=wrap(k)))
+                    except Exception as e:
+                        ctx.fail(pre + ':dump', cs, f'step {step}: asdict through container {rname} raised {e!r}'[:600], detail=src)
+                        continue
+                    dk = _AT[pos](d[fld]) if fld in d else None
+                    if not isinstance(dk, dict) or dk.get(eff) != exp_tag or other['key'] in dk:
+                        ctx.fail(pre + ':dump-tag', cs, f'step {step}: container {rname} (tag_key {eff!r}) dumped member {dk!r}: expected tag {exp_tag!r} under '
+                                 f'{eff!r} (and nothing under the other container\'s key {other["key"]!r})'[:900], detail=src)
+                    continue
+                # reference document: the same value dumped through the twin of this container (fresh classes, no other container involved)
+                tw = twins[c]
+                tk_ = tw.get(K['info']['name'])(**{f.name: getattr(k, f.name) for f in dataclasses.fields(k) if f.init})
+                try:
+                    doc = json.loads(json.dumps(asdict(tw.get(rname)(member_fld=wrap(tk_)))))
+                    tgt = _AT[pos](doc[fld])
+                    if not isinstance(tgt, dict) or tgt.get(eff) != exp_tag:
+                        raise ValueError(f'member dumped as {tgt!r}, expected tag {exp_tag!r} under {eff!r}')
+                except Exception as e:
+                    ctx.fail(pre + ':dump-tag', cs, f'step {step}: reference dump by fresh classes through {rname} only: {e!r}'[:600], detail=src)
+                    continue
+                if o == 'bad':
+                    tgt[eff] = ['nope', 'Zzz', '', exp_tag + 'x', exp_tag.lower() + '_'][badpick]
+                    if tgt[eff] in assigned:
+                        continue
+                cs['doc'] = repr(doc)[:400]
+                out = load_outcome(lambda: fromdict(built.get(rname), copy.deepcopy(doc)))
+                if o == 'load':
+                    if out[0] == 'err':
+                        e = out[1]
+                        ctx.fail(pre + ':load', cs, f'step {step}: container {rname} (tag_key {eff!r}) rejects a document carrying the tag {exp_tag!r} under its '
+                                 f'own tag key: {type(e).__name__}: {str(e)[:300]}', detail=src)
+                    else:
+                        yk = _AT[pos](out[1].member_fld)
+                        if type(yk) is not type(k) or not ref.same_typed(yk, k):
+                            ctx.fail(pre + ':load', cs, f'step {step}: container {rname} loaded {yk!r} ({built.bind_of.get(type(yk), type(yk))}), expected {k!r} '
+                                     f'({K["info"]["name"]})'[:900], detail=src)
+                elif out[0] == 'ok':
+                    ctx.fail(pre + ':bad-unassigned', cs, f'step {step}: container {rname} accepted the unassigned tag {tgt[eff]!r}: {out[1]!r}'[:600], detail=src)
+                elif not isinstance(out[1], ParseError):
+                    ctx.fail(pre + ':bad-unassigned', cs, f'step {step}: unassigned tag {tgt[eff]!r}: expected ParseError, got {type(out[1]).__name__}: '
+                             f'{str(out[1])[:200]}', detail=src)
+                else:
+                    vt = out[1].kwargs.get('valid_tags')
+                    if vt is None or sorted(vt) != sorted(a for a in assigned if a):
+                        ctx.fail(pre + ':bad-unassigned', cs, f'step {step}: ParseError valid_tags {vt!r}, assigned tags {sorted(a for a in assigned if a)!r}', detail=src)
+        finally:
+            built.close()
+            for tw in twins:
+                tw.close()
 
 
 # --------------------------------------------------------------------------- v1 engine
@@ -449,6 +695,7 @@ def run_v1(ctx: C.Ctx):
         # references are declared after the Union field here (explicitly tagged members are referenced on either side)
         sibs = sibling_fields(rng, members, K, before_ok=lambda m: bool((m['info'].get('meta') or {}).get('tag'))) if 'sibs' in dims else []
         root = root_with_siblings(nm('R'), ft, meta, sibs)
+        stepped = spread_bindings(rng, members, root, 'v1') if rng.random() < 0.3 else {}
         try:
             built = model.Built(root)
         except Exception as e:
@@ -477,6 +724,7 @@ def run_v1(ctx: C.Ctx):
             x = built.root(member_fld=wrapped, **sib_vals)
             variant = rng.choice(['unassigned', 'missing', 'extra-key'])
             bad_tag_pick = rng.randint(0, 4)
+            mapdim = draw_mapping(rng)
             if not ctx.begin_case(i):
                 continue
             case = {'ty': root, 'member': K['info']['name'], 'pos': pos, 'inst': repr(x)[:400], 'engine': 'v1', 'policy': policy, 'mirror': mirror}
@@ -486,8 +734,11 @@ def run_v1(ctx: C.Ctx):
                 case['path_members'] = pathed
             if sibs:
                 case['siblings'] = [(n, m['info']['name'], b) for n, _t, m, b in sibs]
+            if stepped:
+                case['meta_bindings'] = stepped
             ctx.seen('tagged:v1:' + pos, case)
-            for dname, on in (('shared-name', shared), ('path-member', K['info']['name'] in pathed), ('sibling-ref', sibs)):
+            for dname, on in (('shared-name', shared), ('path-member', K['info']['name'] in pathed), ('sibling-ref', sibs),
+                              ('meta-in-steps', stepped), ('member-tag-in-later-binding', 'late-tag' in stepped.get(K['info']['name'], ''))):
                 if on:
                     ctx.seen('tagged:v1:dim:' + dname, case)
             src = dict(src=built.source)
@@ -585,6 +836,7 @@ def run_v1(ctx: C.Ctx):
                 st2.add_json(bad)
                 reqs.append({'op': 'loadv1', 'ty': model.enc_ty(mty), 'doc': model.enc_j(bad), 'std': st2.build()})
                 pend.append((case2, out2, built))
+            mapping_docs(ctx, 'tagged:v1', case, built, mapdim, [('tagged', jd, out), ('bad-' + variant, bad, out2)], src)
         finally:
             built.close()
     # ---- a tagged class without any constructor field, loaded directly from a document that holds just its tag
@@ -617,6 +869,8 @@ def run_v1(ctx: C.Ctx):
             pend.append((case, out, built))
         finally:
             built.close()
+    run_shared_family(ctx, 'v1', v1streams.OFFSET + n + 2, ctx.quick(60, 600))
+    ctx.rule += ' The SHARED FAMILY, MAPPING TYPE and META IN STEPS dimensions of the default stream apply to this stream as well.'
     if ctx.model_available:
         outs = ctx.driver.run(reqs)
         for (case, out, built), o_ in zip(pend, outs):
